@@ -1,4 +1,15 @@
 import SkaModel.Drv.Sel
+import SkaModel.Drv.Budget
+import SkaModel.Drv.Label
+import SkaModel.Drv.Agg
+import SkaModel.Drv.IndexWrapper
+import SkaModel.Drv.MultiAnnot
+import SkaModel.Drv.Classifier
+import SkaModel.Drv.Regressor
+import SkaModel.Drv.Fit
+import SkaModel.Drv.Pool
+import SkaModel.Drv.Wrapper
+import SkaModel.Drv.Window
 
 /-! Line-protocol driver: one self-contained case per input line, one output line per case.
 Imports only the Mathlib-free `Core`/`Drv` modules so it links as a `lean_exe`. -/
@@ -6,7 +17,10 @@ Imports only the Mathlib-free `Core`/`Drv` modules so it links as a `lean_exe`. 
 open Ska.Proto
 
 def allHandlers : List (String × P String) :=
-  Ska.Drv.Sel.handlers
+  Ska.Drv.Sel.handlers ++ Ska.Drv.Budget.handlers ++ Ska.Drv.Label.handlers ++ Ska.Drv.Agg.handlers
+  ++ Ska.Drv.IndexWrapper.handlers ++ Ska.Drv.MultiAnnot.handlers ++ Ska.Drv.Classifier.handlers
+  ++ Ska.Drv.Regressor.handlers ++ Ska.Drv.Fit.handlers ++ Ska.Drv.Pool.handlers
+  ++ Ska.Drv.Wrapper.handlers ++ Ska.Drv.Window.handlers
 
 def step (line : String) : String :=
   match tokens line with
